@@ -317,3 +317,26 @@ func (r *Report) Finish(w *World, verifDir string, seed int, wall float64, quiet
 	}
 	return 0
 }
+
+// importObs runs another rule set into a scratch report and adopts its
+// obligations under a new rule name (cross-cutting clauses shared by properties).
+func (r *Report) importObs(w *World, run func(*Report), fromRule, toRule string) int {
+	tmp := NewReport(r.Prop, r.Tier)
+	run(tmp)
+	n := 0
+	for _, o := range tmp.Obs {
+		if o.Rule != fromRule {
+			continue
+		}
+		o.Rule = toRule
+		o.Key = toRule + ":" + strings.TrimPrefix(o.Key, fromRule+":")
+		r.Obs = append(r.Obs, o)
+		n++
+	}
+	for k, v := range tmp.Extra {
+		if _, ok := r.Extra[k]; !ok {
+			r.Extra[k] = v
+		}
+	}
+	return n
+}
